@@ -39,6 +39,8 @@ def random_match_case(rng, exact=True, scope="in"):
         maxwin = 40 if len(set(b - a for a, b in zip(xs, xs[1:]))) > 1 else 200
     else:
         xs = grid(rng, 3, 22)
+        if rng.random() < 0.12:          # non-negative integer abscissae (they may be handed over in an unsigned integer array)
+            xs = [Fraction(int(v * 2) + 10) for v in xs]
         maxwin = 8
     n = len(xs)
     minint = 0 if scope == "degenerate" else 1
@@ -119,7 +121,9 @@ def random_match_case(rng, exact=True, scope="in"):
     #  constant to both series adds the same to every target and every window integral)
     if scope == "in" and not big and exact and xref == [xs[i] for i in fpi] and rng.random() < 0.5:
         c["yoff"] = [rng.choice([-1, 1]), rng.choice([17, 20])]          # values on a level far above their variation (exact translation)
-    if scope == "in" and not big and rng.random() < 0.12:
+    if scope == "in" and all(v.denominator == 1 and 0 <= v < 250 for v in xs) and rng.random() < 0.5:
+        c["container"] = rng.choice(["uint8", "uint16", "int16", "int"])       # integer-typed abscissae (counters, sample numbers)
+    elif scope == "in" and not big and rng.random() < 0.12:
         c["xoff"] = [rng.choice([-1, 1]), rng.choice([31, 40])]     # the same problem far from the origin (exact translation)
     return c
 
